@@ -122,6 +122,7 @@ Definition tpred (sh : shared) (l : tlocal) (p : pc) : pred :=
   | K1 c cur _ v _ =>
       if curv sh c =? cur then (if v =? cur then PVal cur else PNone) else PFresh (curv sh c)
   | S1 _ _ | RAlloc _ _ _ _ | RInc _ _ _ _ => PNone
+  | PDec _ (RGuard v _) => PFresh v
   | _ => PKeep
   end.
 
@@ -265,3 +266,989 @@ Lemma pred_le_reads a b : pred_le a b -> reads_store b = true -> a = b.
 Proof.
   intros [->|[->|(v & -> & ->)]]; cbn; try discriminate; auto.
 Qed.
+
+(** ** Monotonicity of the waiting part *)
+Definition ole (a b : option nat) : Prop :=
+  match a, b with
+  | None, _ => True
+  | Some x, Some y => x <= y
+  | Some _, None => False
+  end.
+
+Ltac pl := first [ left; reflexivity | right; left; reflexivity
+                 | right; right; eexists; split; reflexivity ].
+
+Section Mono.
+  Variables (sh' sh : shared) (k' k : nat) (pr' pr : pred) (cz' cz : option N).
+  Hypothesis Hk : k' <= k.
+  Hypothesis Hle : pred_le pr' pr.
+  Hypothesis Hst : reads_store pr = true -> forall c, curv sh' c = curv sh c.
+  Hypothesis Hphi : forall w ctl, phi2 sh' cz' w ctl <= phi2 sh cz w ctl.
+
+  Lemma um_st c cur : reads_store pr = true -> um sh' c cur = um sh c cur.
+  Proof. intros H. unfold um. fold (curv sh' c) (curv sh c). rewrite (Hst H). reflexivity. Qed.
+
+  Lemma casj_mono c cur : ole (casj sh' k' pr' c cur) (casj sh k pr c cur).
+  Proof.
+    pose proof (um_le1 sh' c cur). pose proof (um_st c cur) as Hu.
+    destruct Hle as [->|[->|(v & -> & ->)]].
+    - destruct pr'; cbn; try lia; destruct (_ =? _); cbn; lia.
+    - destruct pr; cbn; try lia; destruct (_ =? _); cbn; try lia; auto.
+      rewrite Hu by reflexivity. lia.
+    - cbn. destruct (_ =? _); cbn; try lia; auto.
+  Qed.
+
+  Lemma retryj_mono c cur : retryj sh' k' pr' c cur <= retryj sh k pr c cur.
+  Proof.
+    pose proof (um_le1 sh' c cur). pose proof (um_st c cur) as Hu. unfold retryj.
+    destruct Hle as [->|[->|(v & -> & ->)]]; cbn.
+    - destruct (reads_store pr'); lia.
+    - destruct (reads_store pr) eqn:E; [rewrite Hu by reflexivity|]; lia.
+    - lia.
+  Qed.
+
+  Lemma att_st c q H' H : reads_store pr = true -> H' <= H ->
+    att sh' c q H' k' <= att sh c q H k /\ att_np sh' c q k' <= att_np sh c q k.
+  Proof.
+    intros Hr HH. unfold att, att_np, um. fold (curv sh' c) (curv sh c). rewrite (Hst Hr).
+    pose proof (ATTg_mono H' H k' k HH Hk). pose proof (ATTb_mono H' H k' k HH Hk).
+    destruct (_ =? _); lia.
+  Qed.
+  Lemma att_le_b c q H' H : H' <= H ->
+    att sh' c q H' k' <= ATTb H k /\ att_np sh' c q k' <= k + 3.
+  Proof.
+    intros HH. unfold att, att_np. pose proof (um_le1 sh' c q).
+    pose proof (ATTg_mono H' H k' k HH Hk). pose proof (ATTb_mono H' H k' k HH Hk).
+    pose proof (ATTg_le_b H k). destruct (_ =? _); lia.
+  Qed.
+
+  Lemma wnp_mono w : wnp sh' k' pr' w <= wnp sh k pr w.
+  Proof.
+    destruct w; cbn [wnp]; try lia;
+      try (pose proof (att_st c) as As; pose proof (att_le_b c) as Ab).
+    - pose proof (casj_mono c cur) as Hc. destruct (casj sh' k' pr' c cur), (casj sh k pr c cur); cbn in Hc; try lia; contradiction.
+    - pose proof (retryj_mono c cur). lia.
+    - destruct Hle as [->|[->|(v & -> & ->)]].
+      + destruct pr'; try lia. apply (Ab v 0 0); lia.
+      + destruct pr; try lia. apply (As v 0 0); auto.
+      + apply (Ab v 0 0); lia.
+    - destruct Hle as [->|[->|(v & -> & ->)]]; cbn [rcuq].
+      + destruct (rcuq sh' pr' c) as [[q g]|]; try lia. destruct (_ =? _); try lia. destruct g; lia.
+      + destruct pr; cbn [rcuq]; try lia.
+        * destruct (_ =? _); try lia.
+        * rewrite (Hst eq_refl). destruct (_ =? _); try lia. destruct (_ =? _); lia.
+      + destruct (_ =? _); try lia. destruct (_ =? _); lia.
+    - destruct Hle as [->|[->|(v & -> & ->)]]; cbn [reads_store].
+      + destruct (reads_store pr'); try lia. apply (Ab q 0 0); lia.
+      + destruct (reads_store pr) eqn:E; try lia. apply (As q 0 0); auto.
+      + apply (Ab q 0 0); lia.
+  Qed.
+
+  Lemma wcost_mono w H1' H1 : H1' <= H1 ->
+    wcost sh' k' H1' pr' cz' w <= wcost sh k H1 pr cz w.
+  Proof.
+    intros HH.
+    pose proof (ATTg_mono H1' H1 k' k HH Hk) as Mg. pose proof (ATTb_mono H1' H1 k' k HH Hk) as Mb.
+    pose proof (ATTg_le_b H1 k) as Mgb.
+    assert (6 <= ATTg H1 k) as Mlb by (unfold ATTg, FINR; lia).
+    destruct w; cbn [wcost]; try lia;
+      try (pose proof (att_st c) as As; pose proof (att_le_b c) as Ab).
+    - apply PAYC_mono; auto.
+    - pose proof (Hphi w ctl). unfold RD2. lia.
+    - pose proof (casj_mono c cur) as Hc. pose proof (AC_lb 0 H1 k).
+      destruct (casj sh' k' pr' c cur) as [j'|], (casj sh k pr c cur) as [j|]; cbn in Hc; try lia; try contradiction.
+      + apply AC_mono; auto.
+      + pose proof (AC_lb j H1 k). lia.
+    - pose proof (retryj_mono c cur). pose proof (LOADX_mono H1' H1 k' k HH Hk).
+      pose proof (AC_mono (retryj sh' k' pr' c cur) (retryj sh k pr c cur) H1' H1 k' k). lia.
+    - destruct Hle as [->|[->|(v & -> & ->)]].
+      + destruct pr'; try lia. apply (Ab v H1' H1); lia.
+      + destruct pr; try lia. apply (As v H1' H1); auto.
+      + apply (Ab v H1' H1); lia.
+    - unfold FINR in *. destruct Hle as [->|[->|(v & -> & ->)]]; cbn [rcuq].
+      + destruct (rcuq sh' pr' c) as [[q g]|]; try lia. destruct (_ =? _); try lia. destruct g; lia.
+      + destruct pr; cbn [rcuq]; try lia.
+        * destruct (_ =? _); try lia.
+        * rewrite (Hst eq_refl). destruct (_ =? _); try lia. destruct (_ =? _); lia.
+      + destruct (_ =? _); try lia. destruct (_ =? _); lia.
+    - destruct Hle as [->|[->|(v & -> & ->)]]; cbn [reads_store].
+      + destruct (reads_store pr'); try lia. apply (Ab q H1' H1); lia.
+      + destruct (reads_store pr) eqn:E; try lia. apply (As q H1' H1); auto.
+      + apply (Ab q H1' H1); lia.
+  Qed.
+
+  Lemma wpred_mono w : pred_le (wpred sh' pr' w) (wpred sh pr w).
+  Proof.
+    destruct w; cbn [wpred]; try apply pred_le_refl.
+    - (* WGetLoad *)
+      destruct Hle as [->|[->|(v & -> & ->)]]; cbn [reads_store]; try apply pred_le_none.
+      destruct (reads_store pr) eqn:E; [rewrite (Hst eq_refl)|]; apply pred_le_refl.
+    - (* WExit *)
+      destruct r; try apply pred_le_refl.
+      destruct Hle as [->|[->|(v & -> & ->)]]; cbn [reads_store].
+      + destruct (reads_store pr'); pl.
+      + pl.
+      + pl.
+    - (* WCasLoad *)
+      destruct Hle as [->|[->|(v & -> & ->)]]; try apply pred_le_none.
+      + destruct pr; try apply pred_le_refl. rewrite (Hst eq_refl). apply pred_le_refl.
+      + destruct (_ =? _); pl.
+    - (* WCasRetry *)
+      destruct Hle as [->|[->|(v & -> & ->)]]; cbn [reads_store]; try apply pred_le_none.
+      destruct (reads_store pr) eqn:E; [rewrite (Hst eq_refl)|]; apply pred_le_refl.
+  Qed.
+
+  Lemma wpred_reads w : reads_store (wpred sh pr w) = true -> reads_store pr = true.
+  Proof.
+    destruct w; cbn [wpred]; try discriminate.
+    - destruct (reads_store pr); auto.
+    - destruct r; try discriminate. destruct (reads_store pr); auto.
+    - destruct pr; try discriminate; cbn [reads_store]; auto. destruct (_ =? _); discriminate.
+    - destruct (reads_store pr); auto.
+  Qed.
+End Mono.
+
+Lemma go_mono stk : forall sh' sh k' k H' H pr' pr cz' cz,
+  k' <= k -> H' <= H -> pred_le pr' pr ->
+  (reads_store pr = true -> forall c, curv sh' c = curv sh c) ->
+  (forall w ctl, phi2 sh' cz' w ctl <= phi2 sh cz w ctl) ->
+  go sh' k' H' pr' cz' stk <= go sh k H pr cz stk.
+Proof.
+  induction stk as [|w rest IH]; intros sh' sh k' k H' H pr' pr cz' cz Hk HH Hle Hst Hphi; cbn [go]; [lia|].
+  destruct (is_bottom w); [lia|].
+  pose proof (wnp_mono sh' sh k' k pr' pr Hk Hle Hst w) as Hn.
+  pose proof (wcost_mono sh' sh k' k pr' pr cz' cz Hk Hle Hst Hphi w
+                (H' + wnp sh' k' pr' w) (H + wnp sh k pr w) ltac:(lia)) as Hc.
+  specialize (IH sh' sh k' k (H' + wnp sh' k' pr' w) (H + wnp sh k pr w)
+                 (wpred sh' pr' w) (wpred sh pr w) cz' cz Hk ltac:(lia)
+                 (wpred_mono sh' sh pr' pr Hle Hst w)).
+  assert (reads_store (wpred sh pr w) = true -> forall c, curv sh' c = curv sh c) as Hst2.
+  { intros Hr. apply Hst. eapply wpred_reads; eauto. }
+  specialize (IH Hst2 Hphi). lia.
+Qed.
+
+(** ** Entering calls *)
+Lemma phi2_none sh cz w ctl : phi2 sh cz w ctl <= phi2 sh None w ctl.
+Proof. unfold phi2. destruct cz as [n|]; [destruct (n =? w)|]; cbn; destruct (_ || _); lia. Qed.
+
+Lemma go_weaken sh k H' H pr' pr cz stk :
+  H' <= H -> pred_le pr' pr -> go sh k H' pr' cz stk <= go sh k H pr None stk.
+Proof.
+  intros. apply go_mono; auto. intros. apply phi2_none.
+Qed.
+
+Lemma mu_top_le sh l k p rest C H1 pr1 :
+  headn sh + np_top sh k p <= H1 ->
+  tcost sh k (headn sh + np_top sh k p) p <= C ->
+  pred_le (tpred sh l p) pr1 ->
+  mu sh l k (p :: rest) <= C + go sh k H1 pr1 None rest.
+Proof.
+  intros HH HC Hp. cbn [mu].
+  pose proof (go_weaken sh k _ _ _ _ (tcz l p) rest HH Hp). lia.
+Qed.
+
+Lemma fallback_entry_pred cf sh l c l' p' :
+  fallback_entry cf l c = (l', NGoto p') ->
+  tpred sh l' p' = PFresh (curv sh c) /\ np_top sh 0 p' = 0 /\ (forall k, np_top sh k p' = 0) /\
+  (forall k H, tcost sh k H p' <= 14).
+Proof.
+  unfold fallback_entry. destruct (tl_node l); [|discriminate].
+  destruct (cf_debug cf); intros [= <- <-]; cbn; repeat split; auto; intros; cbn; lia.
+Qed.
+
+Lemma mu_enter_load cf sh l k c l' fs tail :
+  enter_load cf l c = inl (l', fs) ->
+  mu sh l' k (fs ++ tail) <=
+  LOADX (headn sh + 1) k + go sh k (headn sh + 1) (PFresh (curv sh c)) None tail.
+Proof.
+  unfold enter_load. destruct (tl_node l) eqn:Hn.
+  - unfold load_body. destruct (cf_use_fast cf).
+    + intros [= <- <-]. cbn [app].
+      eapply Nat.le_trans; [apply (mu_top_le _ _ _ _ _ 28 (headn sh + 1) (PFresh (curv sh c)))|].
+      * cbn. lia.
+      * cbn. lia.
+      * apply pred_le_refl.
+      * unfold LOADX. lia.
+    + destruct (fallback_entry cf _ c) as [l2 nx] eqn:Hf. destruct nx; try discriminate.
+      intros [= <- <-]. cbn [app].
+      destruct (fallback_entry_pred cf sh _ c _ _ Hf) as (Hp & _ & Hnp & Hc).
+      eapply Nat.le_trans; [apply (mu_top_le _ _ _ _ _ 28 (headn sh + 1) (PFresh (curv sh c)))|].
+      * rewrite Hnp. lia.
+      * pose proof (Hc k (headn sh + np_top sh k p)). lia.
+      * rewrite Hp. apply pred_le_refl.
+      * unfold LOADX. lia.
+  - intros [= <- <-]. cbn. rewrite !Nat.add_0_r. unfold LOADX. lia.
+Qed.
+
+Lemma mu_enter_pay sh l k c old l' fs tail :
+  enter_pay l c old = (l', fs) ->
+  mu sh l' k (fs ++ tail) <=
+  GETC (headn sh + 1) k + PAYC (headn sh + 1) + go sh k (headn sh + 1) PNone None tail.
+Proof.
+  unfold enter_pay. destruct (tl_node l) eqn:Hn; intros [= <- <-].
+  - cbn [app]. pose proof (PAYC_mono (headn sh) (headn sh + 1) ltac:(lia)).
+    eapply Nat.le_trans; [apply (mu_top_le _ _ _ _ _ (PAYC (headn sh + 1)) (headn sh + 1) PNone)|].
+    + unfold pay_body. destruct (_ =? _); cbn; lia.
+    + unfold pay_body. destruct (_ =? _); cbn; rewrite Nat.add_0_r; unfold PAYC in *; lia.
+    + apply pred_le_none.
+    + lia.
+  - cbn. rewrite !Nat.add_0_r. lia.
+Qed.
+
+Lemma mu_gdrop sh l k p d f fs tail :
+  guard_drop_frames p d = f :: fs ->
+  fs = [] /\ mu sh l k (f :: tail) <= 2 + go sh k (headn sh) PKeep None tail.
+Proof.
+  unfold guard_drop_frames. destruct d as [sl|]; [|destruct (p =? 0); [discriminate|]];
+    intros [= <- <-]; (split; [reflexivity|]);
+    (eapply Nat.le_trans; [apply (mu_top_le _ _ _ _ _ 2 (headn sh) PKeep); cbn; try lia; apply pred_le_refl|lia]).
+Qed.
+
+Lemma mu_ginto sh l k p d f fs tail :
+  guard_into_frames p d = f :: fs ->
+  fs = [] /\ mu sh l k (f :: tail) <= 3 + go sh k (headn sh) PKeep None tail.
+Proof.
+  unfold guard_into_frames. destruct d as [sl|]; [destruct (p =? 0)|discriminate];
+    intros [= <- <-]; (split; [reflexivity|]);
+    (eapply Nat.le_trans; [apply (mu_top_le _ _ _ _ _ 3 (headn sh) PKeep); cbn; try lia; apply pred_le_refl|lia]).
+Qed.
+
+Lemma go_PKeep_le sh k H' H stk : H' <= H -> go sh k H' PKeep None stk <= go sh k H PNone None stk.
+Proof. intros. apply go_weaken; auto. apply pred_le_none. Qed.
+
+(** ** One attempt of rcu *)
+Definition att_bound (sh : shared) (k : nat) (c p : N) (rest : list pc) : nat :=
+  att sh c p (headn sh + att_np sh c p k) k + go sh k (headn sh + att_np sh c p k) PNone None rest.
+
+Lemma mu_att_push cf sh l k c m p d x l' fs rest :
+  enter_load cf l c = inl (l', fs) ->
+  mu sh l' k ((fs ++ [WCasLoad c p x]) ++ WRcuCas c m p d :: rest) + 1 <= att_bound sh k c p rest.
+Proof.
+  intros He. rewrite <- app_assoc. cbn [app].
+  eapply Nat.le_trans; [apply Nat.add_le_mono_r; eapply mu_enter_load; exact He|].
+  unfold att_bound, att, att_np, um. fold (curv sh c).
+  cbn [go is_bottom wnp wcost wpred casj rcuq]. unfold um. fold (curv sh c).
+  destruct (curv sh c =? p) eqn:E.
+  - cbn [wnp wcost wpred rcuq]. rewrite ?N.eqb_refl, !Nat.add_0_r.
+    replace (headn sh + 1 + (k + 1)) with (headn sh + (k + 2)) by lia.
+    pose proof (LOADX_mono (headn sh + 1) (headn sh + (k + 2)) k k ltac:(lia) ltac:(lia)).
+    unfold ATTg. lia.
+  - cbn [wnp wcost wpred rcuq]. rewrite ?N.eqb_refl, ?(N.eqb_sym p), ?E, !Nat.add_0_r.
+    replace (headn sh + 1 + (k + 2)) with (headn sh + (k + 2 + 1)) by lia.
+    pose proof (LOADX_mono (headn sh + 1) (headn sh + (k + 2 + 1)) k k ltac:(lia) ltac:(lia)).
+    unfold ATTb. lia.
+Qed.
+
+Lemma att_lb sh c p H k : 6 <= att sh c p H k.
+Proof. unfold att, ATTb, ATTg, FINR. destruct (_ =? _); lia. Qed.
+
+Lemma mu_rcu_attempt cf sh l k c m p d l' nx rest :
+  rcu_attempt cf l c m p d = (l', nx) ->
+  match nx with
+  | NGoto p' => mu sh l' k (p' :: rest) <= att_bound sh k c p rest
+  | NPush fs wt => mu sh l' k (fs ++ wt :: rest) <= att_bound sh k c p rest
+  | _ => True
+  end.
+Proof.
+  assert (Halloc : forall m0, mu sh l k (RAlloc c m0 p d :: rest) <= att_bound sh k c p rest).
+  { intros m0. unfold att_bound. cbn [mu np_top tcost tpred tcz]. lia. }
+  assert (Hpush : forall x, match enter_load cf l c with
+            | inl (l'0, frames) => (l'0, NPush (frames ++ [WCasLoad c p x]) (WRcuCas c m p d))
+            | inr ps => (l, NPanic ps) end = (l', nx) ->
+            match nx with
+            | NGoto p' => mu sh l' k (p' :: rest) <= att_bound sh k c p rest
+            | NPush fs wt => mu sh l' k (fs ++ wt :: rest) <= att_bound sh k c p rest
+            | _ => True end).
+  { intros x. destruct (enter_load cf l c) as [[l0 fs]|ps] eqn:He; intros [= <- <-]; [|exact I].
+    pose proof (mu_att_push cf sh l k c m p d x l0 fs rest He). lia. }
+  assert (Hpanic : forall g, guard_drop_frames p d = g -> match g with [] => (l, NRet RPanic) | _ :: _ => (l, NPush g WRcuPanic) end = (l', nx) ->
+            match nx with
+            | NGoto p' => mu sh l' k (p' :: rest) <= att_bound sh k c p rest
+            | NPush fs wt => mu sh l' k (fs ++ wt :: rest) <= att_bound sh k c p rest
+            | _ => True end).
+  { intros g Hg. destruct g as [|f fs]; intros [= <- <-]; [exact I|].
+    destruct (mu_gdrop sh l k p d f fs (WRcuPanic :: rest) Hg) as [-> Hm]. cbn [app].
+    cbn [go is_bottom wnp wcost wpred] in Hm. rewrite !Nat.add_0_r in Hm.
+    unfold att_bound. pose proof (att_lb sh c p (headn sh + att_np sh c p k) k).
+    pose proof (go_PKeep_le sh k (headn sh) (headn sh + att_np sh c p k) rest ltac:(lia)).
+    assert (go sh k (headn sh) PNone None rest <= go sh k (headn sh + att_np sh c p k) PNone None rest)
+      by (apply go_weaken; [lia|apply pred_le_refl]). lia. }
+  unfold rcu_attempt. destruct m.
+  - intros [= <- <-]. apply Halloc.
+  - apply Hpush.
+  - destruct (p =? 0); [apply Hpush|]. intros [= <- <-].
+    unfold att_bound. cbn [mu np_top tcost tpred tcz]. lia.
+  - destruct (k0 =? 0)%N.
+    + generalize (Hpanic _ eq_refl). destruct (guard_drop_frames p d); auto.
+    + intros [= <- <-]. apply Halloc.
+Qed.
+
+(** ** Resuming a waiting frame costs no more than what it was charged *)
+Definition wbound (sh : shared) (k H : nat) (pr : pred) (w : pc) (rest : list pc) : nat :=
+  wcost sh k (H + wnp sh k pr w) pr None w +
+  go sh k (H + wnp sh k pr w) (wpred sh pr w) None rest.
+
+Definition res_ok (sh : shared) (k H : nat) (pr : pred) (w : pc) (l' : tlocal) (nx : next) : Prop :=
+  match nx with
+  | NGoto p' => forall rest, mu sh l' k (p' :: rest) <= wbound sh k H pr w rest
+  | NPush fs wt => forall rest, mu sh l' k (fs ++ wt :: rest) <= wbound sh k H pr w rest
+  | NRet v' => conf v' (wpred sh pr w)
+  | _ => True
+  end.
+
+Lemma res_dec sh k H pr w l a r :
+  headn sh <= H -> 1 <= wcost sh k (H + wnp sh k pr w) pr None w ->
+  conf r (wpred sh pr w) ->
+  pred_le (tpred sh l (PDec a r)) (wpred sh pr w) ->
+  res_ok sh k H pr w l (dec_then a r).
+Proof.
+  intros HH Hc Hcf Hp. unfold dec_then. destruct (a =? 0); cbn [res_ok]; [exact Hcf|].
+  intros rest. unfold wbound.
+  eapply Nat.le_trans; [apply (mu_top_le _ _ _ _ _ 1 (H + wnp sh k pr w) (wpred sh pr w)); cbn [np_top tcost]; try lia; exact Hp|lia].
+Qed.
+
+Lemma res_simple sh k H pr w l p C :
+  headn sh <= H -> np_top sh k p = 0 -> (forall H0, tcost sh k H0 p <= C) ->
+  C <= wcost sh k (H + wnp sh k pr w) pr None w ->
+  pred_le (tpred sh l p) (wpred sh pr w) ->
+  res_ok sh k H pr w l (NGoto p).
+Proof.
+  intros HH Hn Hc HC Hp rest. unfold wbound.
+  eapply Nat.le_trans; [apply (mu_top_le _ _ _ _ _ C (H + wnp sh k pr w) (wpred sh pr w)); auto; rewrite Hn; lia|lia].
+Qed.
+
+Lemma res_casload sh k H pr c cur new p d l :
+  headn sh <= H -> conf (RGuard p d) pr ->
+  res_ok sh k H pr (WCasLoad c cur new) l
+    (if p =? cur then NGoto (K1 c cur new p d) else dec_then new (RGuard p d)).
+Proof.
+  intros HH Hcf. pose proof (um_le1 sh c cur) as Hu.
+  destruct (p =? cur) eqn:E.
+  - apply N.eqb_eq in E. subst p. intros rest. unfold wbound.
+    assert (exists j, casj sh k pr c cur = Some j /\ k + um sh c cur <= j) as (j & Hj & Hle).
+    { destruct pr; cbn [casj conf] in *; try (eexists; split; [reflexivity|lia]);
+        destruct Hcf as (d0 & [= <-]); rewrite N.eqb_refl; eexists; split; try reflexivity; lia. }
+    cbn [wnp wcost]. rewrite Hj.
+    apply mu_top_le.
+    + cbn [np_top]. lia.
+    + cbn [np_top tcost]. apply AC_mono; lia.
+    + cbn [tpred wpred]. rewrite N.eqb_refl.
+      destruct pr; cbn [conf] in Hcf; try apply pred_le_none;
+        destruct Hcf as (d0 & [= <-]); rewrite N.eqb_refl; try apply pred_le_none.
+      destruct (curv sh c =? cur); [apply pred_le_refl|apply pred_le_none].
+  - apply res_dec; auto.
+    + cbn [wnp wcost]. destruct (casj sh k pr c cur) as [j|]; [|lia].
+      pose proof (AC_lb j (H + (j + 1)) k). lia.
+    + cbn [wpred]. destruct pr; cbn [conf] in *; auto;
+        destruct Hcf as (d0 & [= <-]); rewrite E; cbn; eauto.
+    + cbn [tpred wpred]. destruct pr; cbn [conf] in *; try apply pred_le_none;
+        destruct Hcf as (d0 & [= <-]); rewrite E; pl.
+Qed.
+
+Lemma res_casretry cf sh k H pr c cur new l l' fs :
+  headn sh <= H -> enter_load cf l c = inl (l', fs) ->
+  res_ok sh k H pr (WCasRetry c cur new) l' (NPush fs (WCasLoad c cur new)).
+Proof.
+  intros HH He rest. unfold wbound.
+  eapply Nat.le_trans; [eapply mu_enter_load; exact He|].
+  cbn [go is_bottom wnp wcost wpred casj]. unfold um at 1 2 3. fold (curv sh c).
+  set (j := retryj sh k pr c cur). assert (k + um sh c cur <= j) as Hj.
+  { unfold j, retryj. pose proof (um_le1 sh c cur). destruct (reads_store pr); lia. }
+  pose proof (LOADX_mono (headn sh + 1) (H + (j + 2)) k k ltac:(lia) ltac:(lia)).
+  assert (Hgo : forall pa, pred_le pa (if reads_store pr then if curv sh c =? cur then PVal cur else PFresh (curv sh c) else PNone) ->
+     forall Ha, Ha <= H + (j + 2) ->
+     go sh k Ha pa None rest <= go sh k (H + (j + 2))
+       (if reads_store pr then if curv sh c =? cur then PVal cur else PFresh (curv sh c) else PNone) None rest).
+  { intros pa Hpa Ha HHa. apply go_weaken; auto. }
+  destruct (curv sh c =? cur) eqn:E.
+  - cbn [wnp wcost wpred]. unfold um in Hj. fold (curv sh c) in Hj. rewrite E in Hj.
+    pose proof (AC_mono (k + 0) j (headn sh + 1 + (k + 0 + 1)) (H + (j + 2)) k k ltac:(lia) ltac:(lia) ltac:(lia)).
+    pose proof (Hgo (PVal cur) ltac:(destruct (reads_store pr); [apply pred_le_refl|apply pred_le_none])
+                  (headn sh + 1 + (k + 0 + 1)) ltac:(lia)). lia.
+  - cbn [wnp wcost wpred]. rewrite ?E.
+    pose proof (AC_lb j (H + (j + 2)) k).
+    pose proof (Hgo (PFresh (curv sh c)) ltac:(destruct (reads_store pr); [apply pred_le_refl|apply pred_le_none])
+                  (headn sh + 1 + 0) ltac:(lia)). lia.
+Qed.
+
+Lemma att_mono sh c q H' H k : H' <= H -> att sh c q H' k <= att sh c q H k.
+Proof.
+  intros. unfold att. pose proof (ATTg_mono H' H k k). pose proof (ATTb_mono H' H k k).
+  destruct (_ =? _); lia.
+Qed.
+
+Lemma att_bound_le sh k c q rest H1 C :
+  headn sh + att_np sh c q k <= H1 -> att sh c q H1 k <= C ->
+  att_bound sh k c q rest <= C + go sh k H1 PNone None rest.
+Proof.
+  intros HH HC. unfold att_bound.
+  pose proof (att_mono sh c q _ _ k HH).
+  pose proof (go_weaken sh k _ _ PNone PNone None rest HH (pred_le_refl _)). lia.
+Qed.
+
+Lemma res_of_attempt cf sh k H pr w l c m q dq l' nx :
+  (forall rest, att_bound sh k c q rest <= wbound sh k H pr w rest) ->
+  wpred sh pr w = PNone ->
+  rcu_attempt cf l c m q dq = (l', nx) ->
+  res_ok sh k H pr w l' nx.
+Proof.
+  intros Hb Hp Ha. pose proof (mu_rcu_attempt cf sh l k c m q dq l' nx) as Hm.
+  destruct nx; cbn [res_ok]; try exact I.
+  - intros rest. exact (Nat.le_trans _ _ _ (Hm rest Ha) (Hb rest)).
+  - intros rest. exact (Nat.le_trans _ _ _ (Hm rest Ha) (Hb rest)).
+  - rewrite Hp. exact I.
+Qed.
+
+Lemma res_rcuload cf sh k H pr c m p d l l' nx :
+  headn sh <= H -> conf (RGuard p d) pr ->
+  rcu_attempt cf l c m p d = (l', nx) ->
+  res_ok sh k H pr (WRcuLoad c m) l' nx.
+Proof.
+  intros HH Hcf. apply res_of_attempt; [|reflexivity].
+  intros rest. unfold wbound. cbn [wnp wcost wpred].
+  destruct pr; cbn [conf] in Hcf; try destruct Hcf as (d0 & [= <-]);
+    apply att_bound_le; try lia;
+    try (apply (att_le_b sh k k (Nat.le_refl _) c p); lia);
+    try (pose proof (att_le_b sh k k (Nat.le_refl _) c p 0 0 ltac:(lia)); lia).
+Qed.
+
+Lemma res_rcunext cf sh k H pr c m q dq l l' nx :
+  headn sh <= H ->
+  rcu_attempt cf l c m q dq = (l', nx) ->
+  res_ok sh k H pr (WRcuNext c m q dq) l' nx.
+Proof.
+  intros HH. apply res_of_attempt; [|reflexivity].
+  intros rest. unfold wbound. cbn [wnp wcost wpred].
+  pose proof (att_le_b sh k k (Nat.le_refl _) c q 0 0 ltac:(lia)) as [_ Hn].
+  destruct (reads_store pr); apply att_bound_le; try lia.
+  apply (att_le_b sh k k (Nat.le_refl _) c q). lia.
+Qed.
+
+(* the continuation of rcu after compare_and_swap returned a guard on [q] *)
+Lemma res_rcucas cf sh k H pr c m p d q dq l l' nx :
+  headn sh <= H -> conf (RGuard q dq) pr ->
+  resume cf l (WRcuCas c m p d) (RGuard q dq) = (l', nx) ->
+  res_ok sh k H pr (WRcuCas c m p d) l' nx.
+Proof.
+  intros HH Hcf.
+  assert (Hq : match rcuq sh pr c with Some (q0, _) => q0 = q | None => True end).
+  { destruct pr; cbn [rcuq conf] in *; auto; destruct Hcf as (d0 & [= <-]); reflexivity. }
+  cbn [resume]. destruct (p =? q) eqn:E.
+  - (* done *)
+    assert (HC : 6 <= wcost sh k (H + wnp sh k pr (WRcuCas c m p d)) pr None (WRcuCas c m p d)).
+    { cbn [wnp wcost]. destruct (rcuq sh pr c) as [[q0 g]|].
+      - subst q0. rewrite E. unfold FINR. lia.
+      - unfold ATTb. lia. }
+    destruct (guard_into_frames q dq) as [|f fs] eqn:Hi.
+    + destruct (guard_drop_frames p d) as [|f fs] eqn:Hg; intros [= <- <-]; [exact I|].
+      intros rest. destruct (mu_gdrop sh l k p d f fs (WRcuRet q :: rest) Hg) as [-> Hm].
+      cbn [app]. cbn [go is_bottom wnp wcost wpred] in Hm. rewrite !Nat.add_0_r in Hm.
+      unfold wbound. cbn [wpred].
+      pose proof (go_weaken sh k (headn sh) (H + wnp sh k pr (WRcuCas c m p d)) PNone PNone None rest ltac:(lia) (pred_le_refl _)). lia.
+    + intros [= <- <-]. intros rest.
+      destruct (mu_ginto sh l k q dq f fs (WRcuInto p d :: rest) Hi) as [-> Hm].
+      cbn [app]. cbn [go is_bottom wnp wcost wpred] in Hm. rewrite !Nat.add_0_r in Hm.
+      unfold wbound. cbn [wpred].
+      pose proof (go_weaken sh k (headn sh) (H + wnp sh k pr (WRcuCas c m p d)) PNone PNone None rest ltac:(lia) (pred_le_refl _)). lia.
+  - (* next round *)
+    pose proof (att_le_b sh k k (Nat.le_refl _) c q) as Hab.
+    assert (Hb : forall rest, 2 + att_bound sh k c q rest <= wbound sh k H pr (WRcuCas c m p d) rest).
+    { intros rest. unfold wbound. cbn [wnp wcost wpred].
+      destruct (rcuq sh pr c) as [[q0 g]|] eqn:Hr.
+      - subst q0. rewrite E. destruct g.
+        + assert (curv sh c =? q = true) as Hc.
+          { destruct pr; cbn [rcuq] in Hr; try discriminate; injection Hr as <- Hr; auto. }
+          unfold att_bound, att, att_np, um. fold (curv sh c). rewrite Hc.
+          pose proof (ATTg_mono (headn sh + (k + 2 + 0)) (H + (k + 2)) k k ltac:(lia) ltac:(lia)).
+          pose proof (go_weaken sh k (headn sh + (k + 2 + 0)) (H + (k + 2)) PNone PNone None rest ltac:(lia) (pred_le_refl _)). lia.
+        + rewrite <- Nat.add_assoc. apply Nat.add_le_mono_l. apply att_bound_le; [|apply Hab; lia].
+          pose proof (Hab 0 0 ltac:(lia)). lia.
+      - rewrite <- Nat.add_assoc. apply Nat.add_le_mono_l. apply att_bound_le; [|apply Hab; lia].
+        pose proof (Hab 0 0 ltac:(lia)). lia. }
+    destruct (guard_drop_frames p d) as [|f fs] eqn:Hg.
+    + apply res_of_attempt; [|reflexivity]. intros rest. specialize (Hb rest). lia.
+    + intros [= <- <-]. intros rest. specialize (Hb rest).
+      destruct (mu_gdrop sh l k p d f fs (WRcuNext c (rcu_next_mode m) q dq :: rest) Hg) as [-> Hm].
+      cbn [app]. cbn [go is_bottom wnp wcost wpred reads_store] in Hm.
+      unfold att_bound in Hb. lia.
+Qed.
+
+Lemma resume_ok cf sh l k H pr w v l' nx :
+  headn sh <= H -> conf v pr -> is_bottom w = false ->
+  resume cf l w v = (l', nx) ->
+  res_ok sh k H pr w l' nx.
+Proof.
+  intros HH Hcf Hb.
+  destruct w; try discriminate Hb; cbn [resume];
+    try (intros [= <- <-]; exact I).
+  - (* WGetLoad *)
+    destruct v; try (intros [= <- <-]; exact I).
+    unfold load_body. destruct (cf_use_fast cf).
+    + intros [= <- <-]. apply (res_simple _ _ _ _ _ _ _ 28); auto; cbn; try lia.
+      destruct (reads_store pr); pl.
+    + intros Hf. destruct nx; try exact I;
+        try (pose proof (fallback_entry_rem _ _ _ _ _ Hf) as Hr; cbn in Hr; contradiction).
+      destruct (fallback_entry_pred cf sh _ c _ _ Hf) as (Hp & _ & Hnp & Hc).
+      apply (res_simple _ _ _ _ _ _ _ 28); auto.
+      * intros. pose proof (Hc k H0). lia.
+      * rewrite Hp. cbn [wpred]. destruct (reads_store pr); pl.
+  - (* WGetPay *)
+    destruct v; try (intros [= <- <-]; exact I).
+    intros [= <- <-]. intros rest. unfold wbound. cbn [wnp wcost wpred].
+    apply mu_top_le.
+    + unfold pay_body. destruct (_ =? _); cbn; lia.
+    + unfold pay_body. pose proof (PAYC_mono (headn sh + 0) (H + 0) ltac:(lia)).
+      destruct (_ =? _); cbn; unfold PAYC in *; lia.
+    + apply pred_le_none.
+  - (* WGetSetGen *)
+    destruct v; intros [= <- <-]; exact I.
+  - (* WExit *)
+    intros [= <- <-]. cbn [res_ok wpred]. destruct r; try exact I.
+    destruct (reads_store pr); cbn; eauto.
+  - (* WLoadFull *)
+    destruct v; try (intros [= <- <-]; exact I).
+    destruct (guard_into_frames p d) as [|f fs] eqn:Hi; intros [= <- <-]; [exact I|].
+    intros rest. destruct (mu_ginto sh l k p d f fs rest Hi) as [_ Hm].
+    unfold wbound. cbn [wnp wcost wpred].
+    pose proof (go_PKeep_le sh k (headn sh) (H + 0) rest ltac:(lia)). lia.
+  - (* WHelpRepl *)
+    destruct v; try (intros [= <- <-]; exact I).
+    intros [= <- <-]. intros rest. unfold wbound. cbn [wnp wcost wpred].
+    apply mu_top_le; cbn [np_top tcost tpred]; try lia. apply pred_le_none.
+  - (* WDropOld *)
+    destruct v; try (intros [= <- <-]; exact I).
+    intros [= <- <-]. apply res_dec; auto; try exact I. apply pred_le_none.
+  - (* WCasLoad *)
+    destruct v; try (intros [= <- <-]; exact I).
+    destruct (p =? cur) eqn:E; intros [= <- <-];
+      pose proof (res_casload sh k H pr c cur new p d l HH Hcf) as R; rewrite E in R; exact R.
+  - (* WCasPaid *)
+    intros [= <- <-]. apply res_dec; auto; cbn; eauto. pl.
+  - (* WCasRetry *)
+    destruct (enter_load cf l c) as [[l0 fs]|ps] eqn:He; intros [= <- <-]; [|exact I].
+    eapply res_casretry; eauto.
+  - (* WRcuLoad *)
+    destruct v; try (intros [= <- <-]; exact I).
+    eapply res_rcuload; eauto.
+  - (* WRcuCas *)
+    destruct v; try (intros [= <- <-]; exact I).
+    intros Hr. eapply res_rcucas; eauto.
+  - (* WRcuInto *)
+    destruct v; try (intros [= <- <-]; exact I).
+    destruct (guard_drop_frames p d) as [|f fs] eqn:Hg; intros [= <- <-]; [exact I|].
+    intros rest. destruct (mu_gdrop sh l k p d f fs (WRcuRet p0 :: rest) Hg) as [-> Hm].
+    cbn [app]. cbn [go is_bottom wnp wcost wpred] in Hm. rewrite !Nat.add_0_r in Hm.
+    unfold wbound. cbn [wnp wcost wpred].
+    pose proof (go_weaken sh k (headn sh) (H + 0) PNone PNone None rest ltac:(lia) (pred_le_refl _)). lia.
+  - (* WRcuNext *)
+    eapply res_rcunext; eauto.
+  - (* WDropStore *)
+    intros [= <- <-]. apply res_dec; auto; try exact I. apply pred_le_none.
+  - (* WCacheReload *)
+    destruct v; try (intros [= <- <-]; exact I).
+    destruct (a =? 0); intros [= <- <-]; [exact I|].
+    apply (res_simple _ _ _ _ _ _ _ 1); auto; cbn; try lia. apply pred_le_none.
+Qed.
+
+(** ** Handing a value down the stack *)
+Lemma unwind_nb cf l w rest v :
+  is_bottom w = false ->
+  unwind cf l (w :: rest) v =
+  match resume cf l w v with
+  | (l', NGoto p) => UStack l' (p :: rest)
+  | (l', NPush frames wait) => UStack l' (frames ++ wait :: rest)
+  | (l', NRet v') => unwind cf l' rest v'
+  | (l', NPanic s) => UPanic l' s
+  | (l', NFault f) => UFault l' f
+  end.
+Proof. destruct w; try discriminate; reflexivity. Qed.
+
+Lemma unwind_le cf sh k : forall rest l H pr v,
+  headn sh <= H -> conf v pr ->
+  match unwind cf l rest v with
+  | UStack l' stk => mu sh l' k stk <= go sh k H pr None rest
+  | _ => True
+  end.
+Proof.
+  induction rest as [|w rest IH]; intros l H pr v HH Hcf; [exact I|].
+  destruct (is_bottom w) eqn:Hb.
+  - destruct w; try discriminate; exact I.
+  - rewrite (unwind_nb _ _ _ _ _ Hb). cbn [go]. rewrite Hb.
+    destruct (resume cf l w v) as [l' nx] eqn:Hr.
+    pose proof (resume_ok cf sh l k H pr w v l' nx HH Hcf Hb Hr) as R.
+    destruct nx; cbn [res_ok] in R; try exact I.
+    + apply R.
+    + apply R.
+    + specialize (IH l' (H + wnp sh k pr w) (wpred sh pr w) v0 ltac:(lia) R).
+      destruct (unwind cf l' rest v0); try exact I. lia.
+Qed.
+
+(** ** One step of the active frame *)
+Definition step_ok (sh : shared) (l : tlocal) (k : nat) (p : pc)
+           (sh' : shared) (l' : tlocal) (k' : nat) (nx : next) : Prop :=
+  match nx with
+  | NGoto p' => forall rest, mu sh' l' k' (p' :: rest) < mu sh l k (p :: rest)
+  | NPush fs w => forall rest, mu sh' l' k' (fs ++ w :: rest) < mu sh l k (p :: rest)
+  | NRet v =>
+      conf v (tpred sh l p) /\ headn sh' <= headn sh + np_top sh k p /\
+      forall rest, go sh' k' (headn sh + np_top sh k p) (tpred sh l p) None rest
+                   < mu sh l k (p :: rest)
+  | _ => True
+  end.
+
+Record keeps (sh sh' : shared) : Prop := {
+  k_head : mem sh' LHead = mem sh LHead;
+  k_store : forall c, curv sh' c = curv sh c;
+  k_ctl : forall w, mem sh' (LCtrl w) = mem sh (LCtrl w);
+}.
+
+Lemma keeps_refl sh : keeps sh sh.
+Proof. split; reflexivity. Qed.
+
+Lemma keeps_m_set sh loc v :
+  loc <> LHead -> (forall c, loc <> LStore c) -> (forall w, loc <> LCtrl w) ->
+  keeps sh (m_set sh loc v).
+Proof.
+  intros H1 H2 H3. split; intros; unfold curv; cbn; unfold upd;
+    destruct (decide (_ = loc)) as [E|E]; try reflexivity; exfalso; symmetry in E;
+    first [exact (H1 E)|exact (H2 _ E)|exact (H3 _ E)].
+Qed.
+
+Lemma keeps_rc_inc sh a sh' evs : rc_inc sh a = Some (sh', evs) -> keeps sh sh'.
+Proof.
+  unfold rc_inc. destruct (heap sh a); [|discriminate]. intros [= <- <-].
+  apply keeps_m_set; congruence.
+Qed.
+Lemma keeps_rc_dec sh a sh' evs : rc_dec sh a = Some (sh', evs) -> keeps sh sh'.
+Proof.
+  unfold rc_dec. destruct (heap sh a); [|discriminate]. destruct (_ =? 1); intros [= <- <-].
+  - split; intros; unfold curv; cbn; unfold upd; destruct (decide _); congruence.
+  - apply keeps_m_set; congruence.
+Qed.
+Lemma keeps_rc_alloc sh a sh' evs : rc_alloc sh a = Some (sh', evs) -> keeps sh sh'.
+Proof.
+  unfold rc_alloc. destruct (heap sh a); [discriminate|]. destruct (valid_addr a); [|discriminate].
+  intros [= <- <-]. split; intros; unfold curv; cbn; unfold upd; destruct (decide _); congruence.
+Qed.
+
+Lemma keeps_phi2 sh sh' cz w ctl : keeps sh sh' -> phi2 sh' cz w ctl = phi2 sh cz w ctl.
+Proof. intros K. unfold phi2. rewrite (k_ctl _ _ K). reflexivity. Qed.
+Lemma keeps_headn sh sh' : keeps sh sh' -> headn sh' = headn sh.
+Proof. intros K. unfold headn. rewrite (k_head _ _ K). reflexivity. Qed.
+
+Lemma lt_ok sh l k p sh' k' (M : list pc -> nat) C H1 pr1 cz1 :
+  (forall rest, M rest <= C + go sh' k' H1 pr1 cz1 rest) ->
+  k' <= k -> H1 <= headn sh + np_top sh k p ->
+  C < tcost sh k (headn sh + np_top sh k p) p ->
+  pred_le pr1 (tpred sh l p) ->
+  (reads_store (tpred sh l p) = true -> forall c, curv sh' c = curv sh c) ->
+  (forall w ctl, phi2 sh' cz1 w ctl <= phi2 sh (tcz l p) w ctl) ->
+  forall rest, M rest < mu sh l k (p :: rest).
+Proof.
+  intros HM Hk HH HC Hp Hst Hphi rest. specialize (HM rest). cbn [mu].
+  pose proof (go_mono rest sh' sh k' k H1 (headn sh + np_top sh k p) pr1 (tpred sh l p)
+                cz1 (tcz l p) Hk HH Hp Hst Hphi). lia.
+Qed.
+
+Lemma goto_ok sh l k p sh' l' k' p' :
+  k' <= k ->
+  headn sh' + np_top sh' k' p' <= headn sh + np_top sh k p ->
+  tcost sh' k' (headn sh' + np_top sh' k' p') p' < tcost sh k (headn sh + np_top sh k p) p ->
+  pred_le (tpred sh' l' p') (tpred sh l p) ->
+  (reads_store (tpred sh l p) = true -> forall c, curv sh' c = curv sh c) ->
+  (forall w ctl, phi2 sh' (tcz l' p') w ctl <= phi2 sh (tcz l p) w ctl) ->
+  step_ok sh l k p sh' l' k' (NGoto p').
+Proof.
+  intros Hk HH HC Hp Hst Hphi. cbn [step_ok].
+  apply (lt_ok sh l k p sh' k' (fun rest => mu sh' l' k' (p' :: rest))
+               (tcost sh' k' (headn sh' + np_top sh' k' p') p')
+               (headn sh' + np_top sh' k' p') (tpred sh' l' p') (tcz l' p')); auto.
+Qed.
+
+Lemma ret_ok sh l k p sh' l' k' v :
+  k' <= k -> conf v (tpred sh l p) ->
+  headn sh' <= headn sh + np_top sh k p ->
+  1 <= tcost sh k (headn sh + np_top sh k p) p ->
+  (reads_store (tpred sh l p) = true -> forall c, curv sh' c = curv sh c) ->
+  (forall w ctl, phi2 sh' None w ctl <= phi2 sh (tcz l p) w ctl) ->
+  step_ok sh l k p sh' l' k' (NRet v).
+Proof.
+  intros Hk Hcf HH HC Hst Hphi. cbn [step_ok]. split; [exact Hcf|]. split; [exact HH|].
+  apply (lt_ok sh l k p sh' k' (fun rest => go sh' k' (headn sh + np_top sh k p) (tpred sh l p) None rest)
+               0 (headn sh + np_top sh k p) (tpred sh l p) None); auto; try lia.
+  apply pred_le_refl.
+Qed.
+
+Definition spur (p : pc) (x : N) : nat :=
+  match p with
+  | K1 _ _ _ _ _ | GPush _ => if x =? 1 then 1 else 0
+  | _ => 0
+  end.
+
+Lemma goto_keeps sh l k p sh' l' k' p' :
+  keeps sh sh' -> k' <= k ->
+  np_top sh' k' p' <= np_top sh k p ->
+  tcost sh' k' (headn sh + np_top sh' k' p') p' < tcost sh k (headn sh + np_top sh k p) p ->
+  pred_le (tpred sh' l' p') (tpred sh l p) ->
+  (forall w ctl, phi2 sh (tcz l' p') w ctl <= phi2 sh (tcz l p) w ctl) ->
+  step_ok sh l k p sh' l' k' (NGoto p').
+Proof.
+  intros K Hk Hn HC Hp Hphi. apply goto_ok; auto.
+  - rewrite (keeps_headn _ _ K). lia.
+  - rewrite (keeps_headn _ _ K). exact HC.
+  - intros _. apply (k_store _ _ K).
+  - intros. rewrite (keeps_phi2 _ _ _ _ _ K). apply Hphi.
+Qed.
+
+Lemma ret_keeps sh l k p sh' l' k' v :
+  keeps sh sh' -> k' <= k -> conf v (tpred sh l p) ->
+  1 <= tcost sh k (headn sh + np_top sh k p) p ->
+  tcz l p = None ->
+  step_ok sh l k p sh' l' k' (NRet v).
+Proof.
+  intros K Hk Hcf HC Hz. apply ret_ok; auto.
+  - rewrite (keeps_headn _ _ K). lia.
+  - intros _. apply (k_store _ _ K).
+  - intros. rewrite (keeps_phi2 _ _ _ _ _ K), Hz. lia.
+Qed.
+
+Ltac kp :=
+  first [ apply keeps_refl
+        | apply keeps_m_set; [discriminate | intros; discriminate | intros; discriminate]
+        | eapply keeps_rc_inc; eassumption
+        | eapply keeps_rc_dec; eassumption
+        | eapply keeps_rc_alloc; eassumption ].
+
+Ltac ar :=
+  cbn [np_top tcost tpred tcz]; unfold rem0; cbn [rem];
+  try change ((0 <=? 7)%N) with true; cbn beta iota;
+  unfold GETC, PAYC, LOADX, NODE, RD, RD2, bw, headn in *; try lia.
+
+Ltac gk := apply goto_keeps; [kp | lia | ar | ar | cbn [tpred]; try pl | intros; cbn [tcz]; first [lia | apply phi2_none | apply Nat.le_refl | idtac]].
+Ltac rk := apply ret_keeps; [kp | lia | try exact I | ar | reflexivity].
+
+Lemma node_init_mem s n loc :
+  (forall i, loc <> LSlot n i) -> loc <> LCtrl n -> loc <> LAddr n -> loc <> LOffer n ->
+  loc <> LEnv n -> loc <> LInUse n -> loc <> LWriters n ->
+  mem (node_init s n) loc = mem s loc.
+Proof.
+  intros. cbn. unfold upd.
+  repeat match goal with
+         | |- context [decide (loc = ?a)] =>
+             destruct (decide (loc = a)) as [E|_]; [exfalso; subst loc; eauto; congruence|]
+         end. reflexivity.
+Qed.
+
+Lemma node_init_ctl s n : mem (node_init s n) (LCtrl n) = IDLE.
+Proof.
+  cbn. unfold upd.
+  repeat match goal with
+         | |- context [decide (LCtrl n = ?a)] =>
+             destruct (decide (LCtrl n = a)) as [E|E']; [try discriminate E; try reflexivity|try (exfalso; apply E'; reflexivity); try clear E']
+         end.
+Qed.
+
+Definition is_getcool (p : pc) : bool :=
+  match p with
+  | GHead | GCool1 _ | GCool2 _ | GCool3 _ | GBack _ | GClaim _ | GPush0 | GPush _
+  | C1 _ | C2 _ | C3 _ => true
+  | _ => false
+  end.
+
+Lemma exec_getcool cf sh l p x k sh' l' evs nx :
+  is_getcool p = true -> spur p x <= k ->
+  exec cf sh l p x = (sh', l', evs, nx) ->
+  step_ok sh l k p sh' l' (k - spur p x) nx.
+Proof.
+  intros Hg Hs. destruct p; try discriminate Hg; clear Hg; unfold exec;
+    cbn [a_load a_cas a_store a_swap a_fadd a_fsub andb negb spur] in *; rewrite ?Nat.sub_0_r.
+  - (* GHead *)
+    intros [= <- <- <- <-]. destruct (mem sh LHead =? 0) eqn:E; [gk|]. apply N.eqb_neq in E. gk.
+  - (* GCool1 *) intros [= <- <- <- <-]. destruct (_ =? NODE_COOLDOWN); gk.
+  - (* GCool2 *) destruct (mem sh (LInUse n) =? NODE_COOLDOWN); cbn [andb]; intros [= <- <- <- <-]; gk.
+  - (* GCool3 *) destruct (mem sh (LWriters n) =? 0); intros [= <- <- <- <-]; [rk|gk].
+  - (* GBack *) intros [= <- <- <- <-]. gk.
+  - (* GClaim *)
+    destruct (mem sh (LInUse n) =? NODE_UNUSED); cbn [andb]; intros [= <- <- <- <-]; [rk|].
+    destruct (n =? 0) eqn:E; [gk|]. apply N.eqb_neq in E. gk.
+  - (* GPush0 *) intros [= <- <- <- <-]. gk. rewrite N.eqb_refl. lia.
+  - (* GPush *)
+    destruct (mem sh LHead =? head) eqn:Eh; destruct (x =? 1) eqn:Ex; cbn [andb negb];
+      intros [= <- <- <- <-]; rewrite ?Nat.sub_0_r.
+    + gk. rewrite N.eqb_refl, N.eqb_sym, Eh. lia.
+    + apply N.eqb_eq in Eh. apply ret_ok; try lia; try exact I.
+      * unfold headn. rewrite node_init_mem by discriminate. cbn. rewrite upd_same.
+        cbn [np_top]. unfold node_val. rewrite Eh. lia.
+      * ar.
+      * intros _ c. unfold curv. rewrite node_init_mem by discriminate. cbn.
+        rewrite upd_other by discriminate. reflexivity.
+      * intros w ctl. cbn [tcz]. unfold phi2. destruct (decide (w = head)) as [->|Hne].
+        -- rewrite node_init_ctl. change (is_genb IDLE) with false. cbn [negb]. rewrite Bool.orb_true_r. lia.
+        -- rewrite node_init_mem by congruence. cbn. rewrite upd_other by discriminate. lia.
+    + gk. rewrite N.eqb_refl, N.eqb_sym, Eh. lia.
+    + gk. rewrite N.eqb_refl, N.eqb_sym, Eh. lia.
+  - (* C1 *) intros [= <- <- <- <-]. gk.
+  - (* C2 *) intros [= <- <- <- <-]. destruct (_ =? NODE_USED); [gk|exact I].
+  - (* C3 *) intros [= <- <- <- <-]. rk.
+Qed.
+
+(** *** Loads *)
+Lemma with_exit_ok sh l k p sh' k' v d l2 nx :
+  with_exit l (RGuard v d) = (l2, nx) ->
+  keeps sh sh' -> k' <= k ->
+  np_top sh k p = 0 -> 3 < tcost sh k (headn sh) p ->
+  tpred sh l p = PFresh v -> tcz l p = None ->
+  step_ok sh l k p sh' l2 k' nx.
+Proof.
+  intros Hw K Hk Hn HC Hp Hz.
+  apply with_exit_shape in Hw as [->|[n ->]].
+  - apply ret_keeps; auto; rewrite ?Hp, ?Hn, ?Nat.add_0_r; cbn; eauto; lia.
+  - cbn [step_ok app].
+    apply (lt_ok sh l k p sh' k' _ 3 (headn sh') (PFresh v) None).
+    + intros rest. cbn [mu np_top tcost tpred tcz go is_bottom wnp wcost wpred reads_store].
+      rewrite !Nat.add_0_r. lia.
+    + exact Hk.
+    + rewrite (keeps_headn _ _ K). lia.
+    + rewrite Hn, Nat.add_0_r. exact HC.
+    + rewrite Hp. apply pred_le_refl.
+    + intros _. apply (k_store _ _ K).
+    + intros. rewrite (keeps_phi2 _ _ _ _ _ K), Hz. lia.
+Qed.
+
+Lemma fallback_entry_tcz cf l c l' p' :
+  fallback_entry cf l c = (l', NGoto p') -> tcz l' p' = Some (own_node l).
+Proof.
+  unfold fallback_entry. destruct (tl_node l) eqn:E; [|discriminate].
+  destruct (cf_debug cf); intros [= <- <-]; cbn; unfold own_node; cbn; rewrite ?E; reflexivity.
+Qed.
+
+Lemma fallback_ok cf sh l k p sh' k' c l2 nx :
+  fallback_entry cf l c = (l2, nx) ->
+  keeps sh sh' -> k' <= k ->
+  np_top sh k p = 0 -> 14 < tcost sh k (headn sh) p ->
+  tpred sh l p = PFresh (curv sh c) ->
+  (tcz l p = None \/ tcz l p = Some (own_node l)) ->
+  step_ok sh l k p sh' l2 k' nx.
+Proof.
+  intros Hf K Hk Hn HC Hp Hz.
+  destruct nx; try exact I; try (pose proof (fallback_entry_rem _ _ _ _ _ Hf) as Hr; cbn in Hr; contradiction).
+  destruct (fallback_entry_pred cf sh' _ c _ _ Hf) as (Hp' & _ & Hnp & Hc).
+  pose proof (fallback_entry_tcz _ _ _ _ _ Hf) as Hz'.
+  apply goto_keeps; auto.
+  - rewrite Hnp. lia.
+  - rewrite Hn, Nat.add_0_r. pose proof (Hc k' (headn sh + np_top sh' k' p0)). lia.
+  - rewrite Hp', Hp, (k_store _ _ K). apply pred_le_refl.
+  - intros. rewrite Hz'. destruct Hz as [->| ->]; [apply phi2_none|lia].
+Qed.
+
+Definition is_load (p : pc) : bool :=
+  match p with
+  | LA1 _ | LA1d _ _ | LAscan _ _ _ | LA3 _ _ _ | LA4 _ _ _ | LA5 _ _ _ | LA6 _ _
+  | LH0d _ | LH1 _ _ | LH2 _ _ | LH3 _ _ | LH3d _ _ _ | LH4 _ _ _ | LH5 _ _ _
+  | LH6a _ | LH6b _ | LH6c _ | LH7 _ _ | LH8 _ _ _ | LH9 _ _ | LH10 _ _ => true
+  | _ => false
+  end.
+
+Definition top_hyp (l : tlocal) (p : pc) : Prop :=
+  match p with
+  | PE2 _ _ _ _ => tl_node l <> None
+  | LAscan _ _ i => (i <= 7)%N
+  | PS _ _ _ j | PSi _ _ _ j => (j <= 8)%N
+  | _ => True
+  end.
+
+Lemma exec_load_A cf sh l p x k sh' l' evs nx :
+  match p with
+  | LA1 _ | LA1d _ _ | LAscan _ _ _ | LA3 _ _ _ | LA4 _ _ _ | LA5 _ _ _ | LA6 _ _ => True
+  | _ => False
+  end ->
+  top_hyp l p ->
+  exec cf sh l p x = (sh', l', evs, nx) ->
+  step_ok sh l k p sh' l' k nx.
+Proof.
+  intros Hg Ht. destruct p; try contradiction; clear Hg; unfold exec;
+    cbn [a_load a_cas a_store a_swap a_fadd a_fsub andb negb] in *.
+  - (* LA1 *)
+    destruct (tl_node l); [destruct (cf_debug cf)|]; intros [= <- <- <- <-]; try exact I; gk.
+  - (* LA1d *)
+    destruct (_ =? NODE_USED); intros [= <- <- <- <-]; try exact I; gk.
+  - (* LAscan *)
+    cbn [top_hyp] in Ht. assert (Hi : (i <=? 7)%N = true) by (apply N.leb_le; exact Ht).
+    destruct (_ =? NONE).
+    + intros [= <- <- <- <-]. gk; rewrite Hi; lia.
+    + destruct (i =? 7) eqn:E7.
+      * destruct (fallback_entry cf l c) as [l2 nx2] eqn:Hf. intros [= <- <- <- <-].
+        apply N.eqb_eq in E7. subst i.
+        eapply fallback_ok; eauto; try kp; try reflexivity; cbn; try lia; auto.
+      * intros [= <- <- <- <-]. apply N.eqb_neq in E7.
+        assert (Hi' : (i + 1 <=? 7)%N = true) by (apply N.leb_le; lia).
+        gk; rewrite Hi, Hi'; lia.
+  - (* LA3 *)
+    destruct (_ && _); intros [= <- <- <- <-]; try exact I. gk.
+  - (* LA4 *)
+    destruct (mem sh (LStore c) =? p) eqn:E.
+    + destruct (with_exit l _) as [l2 nx2] eqn:Hw. intros [= <- <- <- <-].
+      apply N.eqb_eq in E. eapply with_exit_ok; eauto; try kp; try reflexivity; ar.
+      unfold curv. rewrite E. reflexivity.
+    + intros [= <- <- <- <-]. gk.
+  - (* LA5 *)
+    destruct (mem sh (LSlot (own_node l) j) =? p) eqn:E; cbn [orb].
+    + destruct (fallback_entry cf l c) as [l2 nx2] eqn:Hf. intros [= <- <- <- <-].
+      eapply fallback_ok; eauto; try kp; try reflexivity; cbn; try lia; auto.
+    + destruct (p =? 0).
+      * destruct (fallback_entry cf l c) as [l2 nx2] eqn:Hf. intros [= <- <- <- <-].
+        eapply fallback_ok; eauto; try kp; try reflexivity; cbn; try lia; auto.
+      * intros [= <- <- <- <-]. gk.
+  - (* LA6 *)
+    destruct (rc_dec sh p) as [[s2 evs2]|] eqn:Hd.
+    + destruct (fallback_entry cf l c) as [l2 nx2] eqn:Hf. intros [= <- <- <- <-].
+      eapply fallback_ok; eauto; try kp; try reflexivity; cbn; try lia; auto.
+    + intros [= <- <- <- <-]. exact I.
+Qed.
+
+Lemma phi2_set_ctl_cz sh n v w ctl :
+  phi2 (m_set sh (LCtrl n) v) (Some n) w ctl <= phi2 sh (Some n) w ctl.
+Proof.
+  unfold phi2. destruct (n =? w) eqn:E; cbn [orb]; [lia|].
+  cbn. rewrite upd_other; [lia|]. intros [= ->]. rewrite N.eqb_refl in E. discriminate.
+Qed.
+
+Lemma phi2_set_idle sh n w ctl :
+  phi2 (m_set sh (LCtrl n) IDLE) None w ctl <= phi2 sh (Some n) w ctl.
+Proof.
+  unfold phi2. destruct (n =? w) eqn:E; cbn [orb].
+  - apply N.eqb_eq in E. subst w. cbn. rewrite upd_same. change (is_genb IDLE) with false.
+    cbn [negb]. rewrite Bool.orb_true_r. lia.
+  - cbn. rewrite upd_other; [lia|]. intros [= ->]. rewrite N.eqb_refl in E. discriminate.
+Qed.
+
+Lemma curv_set_ctl sh n v c : curv (m_set sh (LCtrl n) v) c = curv sh c.
+Proof. unfold curv. cbn. apply upd_other. discriminate. Qed.
+Lemma headn_set_ctl sh n v : headn (m_set sh (LCtrl n) v) = headn sh.
+Proof. unfold headn. cbn. rewrite upd_other by discriminate. reflexivity. Qed.
+
+Lemma exec_load_H1 cf sh l p x k sh' l' evs nx :
+  match p with
+  | LH0d _ | LH1 _ _ | LH2 _ _ | LH3 _ _ | LH3d _ _ _ | LH4 _ _ _ => True
+  | _ => False
+  end ->
+  exec cf sh l p x = (sh', l', evs, nx) ->
+  step_ok sh l k p sh' l' k nx.
+Proof.
+  intros Hg. destruct p; try contradiction; clear Hg; unfold exec;
+    cbn [a_load a_cas a_store a_swap a_fadd a_fsub andb negb] in *.
+  - (* LH0d *)
+    destruct (_ =? NODE_USED); [|intros [= <- <- <- <-]; exact I].
+    unfold gen_step. destruct (_ && _); intros [= <- <- <- <-]; [exact I|]. gk.
+  - (* LH1 *) intros [= <- <- <- <-]. gk.
+  - (* LH2 *)
+    destruct (_ && _); intros [= <- <- <- <-]; [exact I|].
+    assert (Ho : own_node (if gt =? GEN_TAG then tl_set_discard l true else l) = own_node l)
+      by (destruct (gt =? GEN_TAG); reflexivity).
+    apply goto_ok; try lia.
+    + rewrite headn_set_ctl. ar.
+    + rewrite headn_set_ctl. ar.
+    + cbn [tpred]. rewrite Ho. cbn. rewrite upd_same, N.eqb_refl.
+      fold (m_set sh (LCtrl (own_node l)) gt). rewrite curv_set_ctl. apply pred_le_refl.
+    + intros _ c0. apply curv_set_ctl.
+    + intros w ctl. cbn [tcz]. rewrite Ho. apply phi2_set_ctl_cz.
